@@ -298,7 +298,12 @@ def order_table(cls, words):
     if head == "DELETE":
         return ["WITH", "DELETE"] + tail + ["RETURNING"]
     if head in ("INSERT", "REPLACE"):
-        return ["WITH", head, "INTO", "VALUES", "SELECT"] + tail + ["CONFLICT", "WHERE", "DUPLICATE", "UPDATE", "SET", "WHERE", "RETURNING"]
+        rest = tail + ["CONFLICT", "WHERE", "DUPLICATE", "UPDATE", "SET", "WHERE", "RETURNING"]
+        if cls in ("mysql", "oracle") and "SELECT" in words:
+            # MySQL and Oracle have no WITH in front of INSERT: the common table expressions stand immediately before the SELECT
+            # (INSERT INTO t (..) WITH c AS (..) SELECT ..)
+            return [head, "INTO", "WITH", "SELECT"] + rest
+        return ["WITH", head, "INTO", "VALUES", "SELECT"] + rest
     if head == "UPDATE":
         if cls in ("postgresql", "sqlite"):
             return ["WITH", "UPDATE", "SET", "FROM", "JOIN", "WHERE", "ORDER", "LIMIT", "RETURNING"]
@@ -342,11 +347,14 @@ def wellformed(cls, sql):
                     return ("repeated_clause" if tail.count(w) > 1 else "clause_order", "%s in the tail of the set operation %r" % (w, sql))
                 pos = allowed.index(w) + 1
         return None
+    if cls in ("mysql", "oracle") and len(words) > 1 and words[0] == "WITH" and words[1] in ("INSERT", "REPLACE") and "SELECT" in words:
+        return ("with_before_insert", "%s has no WITH in front of INSERT (the form is INSERT INTO t (..) WITH c AS (..) SELECT ..): %r" % (cls, sql))
     table = order_table(cls, words)
     if table is None:
         return ("fragment", "statement starts with %s: %r" % (words[0], sql))
     # WITH at depth 0 after the head is WITH ROLLUP / WITH TOTALS / WITH SYSTEM VERSIONING
-    seq = [w for i, w in enumerate(words) if not (w == "WITH" and i > 0)]
+    # (a WITH directly followed by SELECT is the common-table-expression clause of INSERT .. WITH .. SELECT and stays)
+    seq = [w for i, w in enumerate(words) if not (w == "WITH" and i > 0 and not (i + 1 < len(words) and words[i + 1] == "SELECT"))]
     pos = 0
     last = None
     for w in seq:
@@ -474,7 +482,7 @@ def check(case):
     for sql in sorted(sqls):
         w = wellformed(cls, sql)
         if w is not None:
-            out.append((mksig("wellformed", cls if w[0] == "clause_order" else "any", w[0], _clause_pair(w[1])), w[1]))
+            out.append((mksig("wellformed", cls if w[0] in ("clause_order", "with_before_insert") else "any", w[0], _clause_pair(w[1]) if w[0] != "with_before_insert" else ""), w[1]))
             break
     # (4) incomplete builders: the drawn sub-lists, and every sub-list that omits exactly one call
     singles = [[i for i in range(n) if i != j] for j in range(n)] if n <= 14 else []
